@@ -83,10 +83,12 @@ def instances(tier, prop):
             amax = 2 if q else 3
             import itertools
             for steps in itertools.product(range(1, amax + 1), repeat=R + 1):
-                if q and w == 3 and sum(steps) > 4:
+                if w == 3 and sum(steps) > (4 if q else 5):
+                    continue
+                if w == 2 and sum(steps) > (5 if q else 6):
                     continue
                 out.append({"kind": "chain", "w": w, "steps": list(steps), "_cost": (3 * w) ** sum(steps),
-                            "_splitbits": 3 if (w >= 2 and sum(steps) >= 4) else 0})
+                            "_splitbits": (3 if q else 5) if (w >= 2 and sum(steps) >= 4) else 0})
     return out
 
 
